@@ -478,6 +478,21 @@ def run_stream(case, ctx):
     def verify(i, got, where):
         check_obj(ctx, tskit, got, prepared[i][1], f"stream object {i}/{k} via {where}", loaded=True)
 
+    def skip_reads(src, seek, offsets, where):
+        """History on one open seekable stream: after the objects were read in order, each stored object is read
+        again from its own offset through the lazy (skip_*) read paths; only the content is asserted, not the
+        stream position afterwards."""
+        for i in range(k - 1, -1, -1):
+            sk_t, sk_r = [(True, False), (False, True), (True, True)][(i + k) % 3]
+            Es = S.expected_image(objs[i]["spec"], None, skip_tables=sk_t, skip_refseq=sk_r)
+            if not sk_t:
+                Es["indexes"] = prepared[i][1]["indexes"]
+            seek(offsets[i])
+            got = tskit.TableCollection.load(src, skip_tables=sk_t, skip_reference_sequence=sk_r)
+            check_tc(ctx, tskit, got, Es, f"stream object {i}/{k} via {where} skip_tables={sk_t} skip_refseq={sk_r}",
+                     loaded=True)
+        ctx.label("skip_reads_on_stream", k >= 2)
+
     seekable = ch in ("fobj", "fobj0", "fobj_rw", "fd")
 
     def end_of_stream(src, what):
@@ -522,6 +537,7 @@ def run_stream(case, ctx):
                                   f"after loading object {i}: offset {pos} expected {offsets[i + 1]}")
                         verify(i, got, "fd")
                     end_of_stream(fd, "end[fd]")
+                    skip_reads(fd, lambda o: os.lseek(fd, o, os.SEEK_SET), offsets, "fd")
                 finally:
                     os.close(fd)
             else:
@@ -547,6 +563,10 @@ def run_stream(case, ctx):
                                   f"after loading object {i}: tell() {f.tell()} expected {offsets[i + 1]}")
                         verify(i, got, ch)
                     end_of_stream(f, f"end[{ch}]")
+                    # (a fresh file object: after a failed load BufferedReader.seek() may move only its own
+                    # pointer, while the loader reads through the descriptor)
+                    with open(path, "rb", **kw) as g:
+                        skip_reads(g, g.seek, offsets, ch)
                 finally:
                     f.close()
         else:
